@@ -80,6 +80,20 @@ fn first_projection_expr(v: &[Statement]) -> Option<Expr> {
     }
     None
 }
+/// the second item of `SELECT 0, <e> FROM t` (the first position is not neutral: ALL / DISTINCT / TOP there
+/// belong to the SELECT head)
+fn second_projection_expr(v: &[Statement]) -> Option<Expr> {
+    if let Some(Statement::Query(q)) = v.first() {
+        if let SetExpr::Select(s) = &*q.body {
+            if s.projection.len() == 2 {
+                if let SelectItem::UnnamedExpr(e) = &s.projection[1] {
+                    return Some(e.clone());
+                }
+            }
+        }
+    }
+    None
+}
 fn selection_expr(v: &[Statement]) -> Option<Expr> {
     if let Some(Statement::Query(q)) = v.first() {
         if let SetExpr::Select(s) = &*q.body {
@@ -158,7 +172,7 @@ pub fn subparsers(c: &Value) -> Value {
         }
         ne += 1;
         for (tpl, text, harvest) in [
-            ("SELECT {e} FROM t", format!("SELECT {e} FROM t"), first_projection_expr as fn(&[Statement]) -> Option<Expr>),
+            ("SELECT 0, {e} FROM t", format!("SELECT 0, {e} FROM t"), second_projection_expr as fn(&[Statement]) -> Option<Expr>),
             ("SELECT 1 FROM t WHERE {e}", format!("SELECT 1 FROM t WHERE {e}"), selection_expr),
             ("SELECT ({e})", format!("SELECT ({e})"), |v: &[Statement]| match first_projection_expr(v) { Some(Expr::Nested(b)) => Some(*b), o => o }),
         ] {
